@@ -29,6 +29,7 @@ func init() {
 		// meaning rests on (a reference means the rule of that name, a class means unicode's table of that name, …)
 		r.importing = "C15"
 		checkEngineInvariants(r, prog, "c15")
+		checkPegCombinators(r, prog, "c15")
 		r.importing = ""
 	})
 	register("C15", true, func(r *Run, prog *Program) {
@@ -88,6 +89,7 @@ func init() {
 		checkSelectorString(r, prog, "c19") // a bare value's text is Selector.String(): dotted join of the parts
 		r.importing = "C15"
 		checkEngineInvariants(r, prog, "c15") // a literal containing U+FFFD is valid; a long chain parses like a short one
+		checkPegCombinators(r, prog, "c15")    // precedence and grouping are what the table says only if the engine reads it as PEG
 		r.importing = "C07"
 		checkSelectorGrammar(r, ga, "c07") // a selector's parts are the text that was written (no numeric or case normalisation)
 		if a16 := FindAnchors(prog); len(a16.Missing) == 0 {
